@@ -41,3 +41,10 @@ func (c *CountingReaderAt) ReadAt(p []byte, off int64) (int, error) {
 	}
 	return n, err
 }
+
+// SizedCountingReaderAt additionally exposes Size(), like bytes.Reader and
+// io.SectionReader do, so that code with a "reader knows its size" fast
+// path is driven down that path too.
+type SizedCountingReaderAt struct{ *CountingReaderAt }
+
+func (s SizedCountingReaderAt) Size() int64 { return s.CountingReaderAt.Size }
